@@ -7,7 +7,7 @@ import itertools
 
 from sa import term as T
 from sa.interp import Interp, SObj, SVar
-from sa.load import AnalysisError, Repo, loc
+from sa.load import AnalysisError, Repo, loc, where_of
 from sa.report import Run
 from sa.scipp_model import Model
 from sa.term import Rat
@@ -206,7 +206,7 @@ def run(tier: str) -> Run:
     # ---- R2 ASCII / comments -------------------------------------------------------------
     r2 = run.rule('R2', 'output is ASCII; comment text never becomes data; block names are sanitised', 5)
     text = write_chunk({'k': 'é ü', 'k2': 'ö\nä'}, comment='cömment\nline 2')
-    r2.check(text.isascii(), 'non-ASCII values and comments are escaped', loc(repo.func(MOD, '_encode_non_ascii')), {'written': text}, key='ascii')
+    r2.check(text.isascii(), 'non-ASCII values and comments are escaped', where_of(repo, MOD, '_encode_non_ascii', 'save_cif'), {'written': text}, key='ascii')
     bad = []
     for c in ['x', '_tag value', 'a\n_tag value', 'a\r_tag v', 'loop_\n_a\n1', '; text\n;', 'data_x', 'a\x0b_t v', '\n_t v']:
         text = write_chunk({'k': 'v'}, comment=c)
@@ -216,7 +216,7 @@ def run(tier: str) -> Run:
             got = str(ex)
         if got != [('pair', '_k', 'v')]:
             bad.append({'comment': c, 'written': text, 'parsed': repr(got)})
-    r2.check(not bad, 'comments never leak into data', loc(repo.func(MOD, '_write_comment')), {'leaks': bad[:2]}, key='comments')
+    r2.check(not bad, 'comments never leak into data', where_of(repo, MOD, '_write_comment', 'save_cif'), {'leaks': bad[:2]}, key='comments')
     text = write_loop({'c': ['1']}, comment='note\n_x y')
     try:
         got = cif11.parse_pairs(text)
